@@ -196,8 +196,22 @@ def run_unit(unit, tier):
             for r in recs:
                 labels += r['labels']
                 fn = r['fn'] or fn
+            # a failed precondition of a template-level stand-in (e.g. the allocation contract) carries its label on its own line
+            gl = g['text'].split('\n')
+            tmpl_clause = ''
+            for (ln, lab, prim) in e['lines']:
+                if ln and 1 <= ln <= len(g['origin']) and g['origin'][ln - 1].get('kind') == 'tmpl':
+                    found = LABEL.findall(gl[ln - 1])
+                    if found:
+                        labels += found
+                        tmpl_clause = gl[ln - 1].strip()[:600]
+                        f2 = None
+                        for (ln2, _l, _p) in e['lines']:
+                            if ln2 and 1 <= ln2 <= len(g['origin']) and g['origin'][ln2 - 1].get('kind') == 'src':
+                                f2 = g['origin'][ln2 - 1].get('fn')
+                        fn = f2 or fn
             out['failures'].append(dict(function=fn, message=e['message'], labels=sorted(set(labels)),
-                                        clause=(recs[0]['text'] if recs else ''), src=src,
+                                        clause=(recs[0]['text'] if recs else tmpl_clause), src=src,
                                         rendered=e.get('rendered', '')[:3000]))
     # vacuity canaries (only when the main run was decided)
     maxloops = max([f['nloops'] for f in g['functions']] + [0])
